@@ -126,11 +126,14 @@ pub fn specs_to_bits(s: &GraphSpecs) -> SpecBits {
 #[derive(Clone, Copy, Debug, PartialEq, Eq, Serialize, Deserialize)]
 pub struct W(pub u8);
 
-/// 0 = mixed (some NaN, some dyadic), 1 = all weighted (positive dyadic k/4), 2 = all unweighted
+/// 0 = mixed (some NaN, some dyadic), 1 = all weighted (positive dyadic k/4), 2 = all unweighted,
+/// 3 = all weighted, tiny dyadic (k+1)*2^-60, 4 = all weighted, large dyadic (k+1)*2^40
 pub fn weight_of(mode: u8, w: W) -> f64 {
     match mode {
         2 => f64::NAN,
         1 => ((w.0 % 32) as f64 + 1.0) / 4.0,
+        3 => ((w.0 % 32) as f64 + 1.0) * (2.0f64).powi(-60),
+        4 => ((w.0 % 32) as f64 + 1.0) * (2.0f64).powi(40),
         _ => {
             if w.0 % 4 == 3 {
                 f64::NAN
@@ -364,8 +367,8 @@ pub fn apply(op: &Op, wmode: u8, m: &mut Model, g: &mut G) -> (String, String) {
             let gr = g.add_edge(mk_edge(&u, &v, w));
             (mr.into(), crate::core::res_kind(&gr))
         }
-        Op::AddEdgeTuple(u, v) if wmode == 1 => apply(&Op::AddEdge(*u, *v, W(3)), wmode, m, g),
-        Op::AddEdgeTuples(es) if wmode == 1 => {
+        Op::AddEdgeTuple(u, v) if matches!(wmode, 1 | 3 | 4) => apply(&Op::AddEdge(*u, *v, W(3)), wmode, m, g),
+        Op::AddEdgeTuples(es) if matches!(wmode, 1 | 3 | 4) => {
             apply(&Op::AddEdges(es.iter().map(|(u, v)| (*u, *v, W(3))).collect()), wmode, m, g)
         }
         Op::AddEdgeTuple(u, v) => {
